@@ -863,7 +863,11 @@ class SobieskiAerodynamics(SobieskiDiscipline):
         c_4 = c_4 or self.constants[4]
         self.__compute_rho_v(mach, altitude)
         rhov2 = self.__compute_rhov2()
-        lift_coeff = ac_mass / (0.5 * rhov2 * wing_area)
+        # The derivatives below use the lift and induced drag coefficients
+        # stored by the last execution, which may have used other inputs
+        # (e.g. when the outputs are retrieved from a cache): update them.
+        lift_coeff = self.__compute_cl(wing_area, ac_mass)
+        self.__compute_k_aero(mach, sweep)
         # Modification of drag_coeff_min for ESF and Cf
         (
             fo1,
